@@ -118,6 +118,11 @@ impl Adapter for MemoryAdapter {
         rule.insert(0, ptype.to_owned());
         rule.insert(0, sec.to_owned());
 
+        // LinkedHashSet::insert moves an existing entry to the back: a
+        // rejected re-add must not reorder the stored policy
+        if self.policy.contains(&rule) {
+            return Ok(false);
+        }
         Ok(self.policy.insert(rule))
     }
 
@@ -143,7 +148,11 @@ impl Adapter for MemoryAdapter {
                 return Ok(all_added);
             }
         }
-        self.policy.extend(rules);
+        for rule in rules {
+            if !self.policy.contains(&rule) {
+                self.policy.insert(rule);
+            }
+        }
 
         Ok(all_added)
     }
